@@ -87,6 +87,11 @@ def gen_sexpr(rng, df, depth=0, want="num"):
         c = rng.choice(nums)
         vals = df[c].dropna()
         thr = float(vals.iloc[rng.randrange(len(vals))]) if len(vals) else 0.0
+        if getattr(df[c].dtype, "kind", "i") == "f" and len(vals):
+            # a float column may be the product of a reduction (1 ulp apart between plans): cut strictly between two distinct values
+            u = sorted(set(float(x) for x in vals.tolist()))
+            j = rng.randrange(len(u))
+            thr = (u[j] + u[j + 1]) / 2.0 if j + 1 < len(u) else u[j] + 0.5
         if rng.random() < 0.2 and len(nums) > 1:
             return [rng.choice(["lt", "ge"]), ["col", c], ["col", rng.choice([x for x in nums if x != c])]]
         if rng.random() < 0.1:
@@ -253,7 +258,10 @@ def s_filter_series(rng, ins):
     k = getattr(s.dtype, "kind", "O")
     if k not in NUM_KINDS or isinstance(s.dtype, pd.CategoricalDtype) or not len(s.dropna()):
         return None
-    return {"op": rng.choice(["gt", "le", "ne"]), "thr": float(s.dropna().iloc[rng.randrange(len(s.dropna()))])}
+    u = sorted(set(float(x) for x in s.dropna().tolist()))
+    j = rng.randrange(len(u))
+    thr = u[j] if k != "f" else ((u[j] + u[j + 1]) / 2.0 if j + 1 < len(u) else u[j] + 0.5)
+    return {"op": rng.choice(["gt", "le", "ne"]), "thr": thr}
 
 
 def a_filter_series(lib, ins, p):
@@ -602,7 +610,7 @@ Op("drop_duplicates", 1, ["frame"], s_dropdup, lambda lib, ins, p: ins[0][p["sub
 
 def s_loc(rng, ins):
     df = ins[0].pd
-    if not df.index.is_monotonic_increasing or not len(df):
+    if not df.index.is_monotonic_increasing or not len(df) or getattr(df.index.dtype, "kind", "O") == "b":
         return None
     a, b = sorted([rng.randrange(len(df)), rng.randrange(len(df))])
     lo, hi = df.index[a], df.index[b]
@@ -622,7 +630,7 @@ def a_loc(lib, ins, p):
     return ins[0].loc[lo:hi]
 
 
-Op("loc_slice", 1, ["frame", "series"], s_loc, a_loc, needs_index=True, weight=0.5, tags=["index"], src="{0}.loc[{lo!r}:{hi!r}]")
+Op("loc_slice", 1, ["frame", "series"], s_loc, a_loc, needs_index=True, needs_order=True, weight=0.5, tags=["index"], src="{0}.loc[{lo!r}:{hi!r}]")
 
 # ---- reductions ---------------------------------------------------------------------------------
 
